@@ -159,6 +159,25 @@ theorem checkNoticeOrigin_ext (cfg : Cfg) (a : A) (rd : Option Read) (evs : List
     · exact errExt_err _ _ _ _ (by simp)
     · exact ErrExt.refl _ _
 
+
+theorem checkLoggerWaited_ext (cfg : Cfg) (a : A) (rd : Read) (evs : List Ev) :
+    ErrExt ["C14"] a (checkLoggerWaited cfg a rd evs) := by
+  unfold checkLoggerWaited
+  split
+  · exact ErrExt.refl _ _
+  · dsimp only
+    split
+    · exact ErrExt.refl _ _
+    · exact errExt_foldl _ _ (fun x y => errExt_chk _ _ _ _ _ (by simp)) _ _
+
+/-- what `roundBody.go` does to the abstract state before it hands it to `segment`: the two C14 checks on the events of
+    the frame -/
+def preSeg (cfg : Cfg) (a : A) (rd : Read) (evs : List Ev) : A :=
+  checkLoggerWaited cfg (checkNoticeOrigin cfg a (some rd) evs) rd evs
+
+theorem preSeg_ext (cfg : Cfg) (a : A) (rd : Read) (evs : List Ev) : ErrExt ["C14"] a (preSeg cfg a rd evs) :=
+  (checkNoticeOrigin_ext cfg a (some rd) evs).trans (checkLoggerWaited_ext cfg _ rd evs)
+
 theorem checkNoNotice_ext (cfg : Cfg) (a : A) (all : List Ev) : ErrExt ["C14"] a (checkNoNoticeAboutNotices cfg a all) := by
   unfold checkNoNoticeAboutNotices
   exact errExt_chk _ _ _ _ _ (by simp)
